@@ -33,11 +33,14 @@ class Outcome:
     return self.qbytes is not None
 
 
-def setup_quantizer(model_bytes, recipe, prior=None):
+def setup_quantizer(model_bytes, recipe, prior=None, use_after=None, use_fn=None):
   """Quantizer with the recipe applied; returns (qt, accepted, refused).
 
   prior: name of a shipped calibration-free recipe that is loaded and quantized
   with on the same Quantizer first (an earlier use of the object).
+  use_after / use_fn: after that many rules have been applied the Quantizer is
+  used once (use_fn(qt): a throw-away calibrate or quantize) before the
+  remaining rules are added - the recipe-exploration workflow.
   """
   # the documented argument type is a (mutable) bytearray
   qt = quantizer_mod.Quantizer(model_bytes)
@@ -49,7 +52,9 @@ def setup_quantizer(model_bytes, recipe, prior=None):
   if recipe['kind'] == 'shipped':
     qt.load_quantization_recipe(copy.deepcopy(R.shipped_recipes()[recipe['name']]))
     return qt, accepted, refused
-  for r in recipe['rules']:
+  for k, r in enumerate(recipe['rules']):
+    if use_fn is not None and use_after == k and k > 0:
+      use_fn(qt)
     try:
       cfg = R.make_config(r['cfg'])
     except ValueError as e:
@@ -76,7 +81,17 @@ def run(case, stop_after=None):
     out.model_bytes = G.to_external(out.model_bytes)
   # caller-owned, mutable copy handed to the Quantizer (C02/C14 compare it afterwards)
   out.model_arg = bytearray(out.model_bytes)
-  qt, out.accepted, out.refused = setup_quantizer(out.model_arg, case['recipe'], case.get('prior'))
+  def throw_away_use(q):
+    # what a user exploring recipes does between two updates; outcome ignored
+    if not q.get_quantization_recipe():
+      return
+    if q.need_calibration:
+      for si, sg in enumerate(mspec['subgraphs']):
+        core.call(q.calibrate, [G.make_inputs(mspec, si, 12345, 0.02)], sg['sig'])
+    else:
+      core.call(q.quantize)
+  qt, out.accepted, out.refused = setup_quantizer(
+      out.model_arg, case['recipe'], case.get('prior'), case.get('use_after'), throw_away_use)
   out.qt = qt
   out.recipe = qt.get_quantization_recipe()
   if not out.recipe:
@@ -88,6 +103,11 @@ def run(case, stop_after=None):
     calib = constructed_stats(mspec, case['stats'])
   elif out.need_calibration:
     seeds = case.get('calib_seeds', [1])
+    if case.get('prior_calib'):
+      # an earlier, independent calibration of the same object on other
+      # (much smaller) data; its result is discarded
+      for si, sg in enumerate(mspec['subgraphs']):
+        core.call(qt.calibrate, [G.make_inputs(mspec, si, 4321, 0.02)], sg['sig'])
     res = None
     for si, sg in enumerate(mspec['subgraphs']):
       data = calibration_data(mspec, si, seeds)
@@ -184,9 +204,22 @@ def cases(draw, model_kw=None, recipe_kind='mixed', max_rules=5, cfg_pool=None,
                              allow_skip=allow_skip))
     recipe = {'kind': 'rules', 'rules': rules}
   n = draw(st.integers(1, calib_max))
-  return {'model': mspec, 'recipe': recipe,
+  case = {'model': mspec, 'recipe': recipe,
           'calib_seeds': [draw(st.integers(0, 999)) for _ in range(n)],
           'input_seed': draw(st.integers(0, 999))}
+  draw(usage_dimensions(case))
+  return case
+
+
+@st.composite
+def usage_dimensions(draw, case):
+  """Adds (in place) earlier uses of the same Quantizer object to a case."""
+  rules = case['recipe'].get('rules') or []
+  if len(rules) >= 2 and draw(st.integers(0, 3)) == 0:
+    case['use_after'] = draw(st.integers(1, len(rules) - 1))
+  if draw(st.integers(0, 5)) == 0:
+    case['prior_calib'] = True
+  return None
 
 
 SHIPPED_NAMES = ['default_a16w8_recipe', 'default_a8w8_recipe',
